@@ -1052,8 +1052,8 @@ def degree_reduction(degree, ctrlpts, **kwargs):
     pts_red = [[0.0 for _ in range(len(ctrlpts[0]))] for _ in range(degree)]
 
     # Fix start and end control points
-    pts_red[0] = ctrlpts[0]
-    pts_red[-1] = ctrlpts[-1]
+    pts_red[0] = list(ctrlpts[0])  # the end points are copied: the result does not share objects with the input
+    pts_red[-1] = list(ctrlpts[-1])
 
     # Find if the degree is an even or an odd number
     p_is_odd = True if degree % 2 != 0 else False
